@@ -614,9 +614,23 @@ static void op_misc(const char *op)
     else if (!strcmp(op, "setenv")) { char *v = argstr("val"); setenv(argreq("key"), v, 1); free(v); logf_("R %d setenv\n", g_line); }
     else if (!strcmp(op, "unsetenv")) { unsetenv(argreq("key")); logf_("R %d unsetenv\n", g_line); }
     else if (!strcmp(op, "fault")) {
-        shim.fault_ord = argi("ord", -1); shim.fault_class = (int)argi("class", MPI_ERR_IO); shim.fault_sticky = (int)argi("sticky", 0);
+        static const struct { const char *n; int c; } cls[] = { {"IO", MPI_ERR_IO}, {"NO_SPACE", MPI_ERR_NO_SPACE}, {"QUOTA", MPI_ERR_QUOTA},
+            {"ACCESS", MPI_ERR_ACCESS}, {"READ_ONLY", MPI_ERR_READ_ONLY}, {"FILE", MPI_ERR_FILE}, {"OTHER", MPI_ERR_OTHER},
+            {"BAD_FILE", MPI_ERR_BAD_FILE}, {"NO_SUCH_FILE", MPI_ERR_NO_SUCH_FILE}, {"FILE_IN_USE", MPI_ERR_FILE_IN_USE},
+            {"UNSUPPORTED_OPERATION", MPI_ERR_UNSUPPORTED_OPERATION}, {"AMODE", MPI_ERR_AMODE}, {"NOT_SAME", MPI_ERR_NOT_SAME}, {NULL, 0} };
+        shim.fault_ord = argi("ord", -1); shim.fault_class = MPI_ERR_IO; shim.fault_sticky = (int)argi("sticky", 0);
+        const char *cn = arg("class");
+        if (cn) { int found = 0; for (int i = 0; cls[i].n; i++) if (!strcmp(cls[i].n, cn)) { shim.fault_class = cls[i].c; found = 1; }
+                  if (!found) shim.fault_class = (int)strtol(cn, NULL, 0); }
         if (argi("relative", 0) && shim.fault_ord >= 0) shim.fault_ord += shim_io_ord;
         logf_("R %d fault ord=%ld class=%d\n", g_line, shim.fault_ord, shim.fault_class);
+    }
+    else if (!strcmp(op, "faultsync")) {
+        /* all ranks: has an injected fault fired anywhere?  If so the run ends here: what follows a failed call is the
+         * application's business, the property only speaks about the failed call itself. */
+        long f = shim.fault_fired, g = 0; PMPI_Allreduce(&f, &g, 1, MPI_LONG, MPI_MAX, MPI_COMM_WORLD);
+        logf_("R %d faultsync fired=%ld\n", g_line, g);
+        if (g > 0) { logf_("E 0 end-after-fault\n"); fclose(g_log); g_log = NULL; PMPI_Barrier(MPI_COMM_WORLD); _exit(0); }
     }
     else if (!strcmp(op, "delay")) { shim.delay_state = (unsigned)(argi("seed", 0) * 2654435761u + g_rank * 40503u + 1); shim.delay_max_us = (int)argi("max_us", 0);
         if (argi("seed", 0) == 0) shim.delay_state = 0; logf_("R %d delay\n", g_line); }
